@@ -25,6 +25,13 @@ macro_rules! any_g {
                 _ => None,
             }
         }
+        /// `t.clone_from(s)` when both have the same `N` (the other entry point of the `Clone` trait); `false` otherwise
+        fn clone_from_any(t: &mut AnyG, s: &AnyG) -> bool {
+            match (t, s) {
+                $((AnyG::$v(x), AnyG::$v(y)) => { x.clone_from(y); true })*
+                _ => false,
+            }
+        }
         fn new_g(n: usize, cap: usize) -> Option<AnyG> {
             match n { $($n => Some(AnyG::$v(Sodg::empty(cap))),)* _ => None }
         }
@@ -593,8 +600,30 @@ impl World {
                         self.hs.insert(b, HS::Dead);
                         "dead".into()
                     }
-                    Some(HS::Live(g)) => {
-                        let r = catch_unwind(AssertUnwindSafe(|| map_g!(g, x => x.clone())));
+                    Some(HS::Live(_)) => {
+                        if a == b {
+                            return "bad-op".into();
+                        }
+                        // when the target handle already holds a graph of the same N, the clone is made into it with
+                        // `clone_from` (what `target = source.clone()` becomes under clippy's `assigning_clones`)
+                        let old = match self.hs.remove(&b) {
+                            Some(HS::Live(t)) => Some(t),
+                            _ => None,
+                        };
+                        let g = match self.hs.get(&a) {
+                            Some(HS::Live(g)) => g,
+                            _ => return "bad-op".into(),
+                        };
+                        let r = catch_unwind(AssertUnwindSafe(|| match old {
+                            Some(mut t) => {
+                                if clone_from_any(&mut t, g) {
+                                    t
+                                } else {
+                                    map_g!(g, x => x.clone())
+                                }
+                            }
+                            None => map_g!(g, x => x.clone()),
+                        }));
                         match r {
                             Ok(c) => {
                                 let k = keys_of(&c);
